@@ -44,15 +44,7 @@ func checkCacheKeyIdentity(c *Ctx, rule string) {
 	w := c.W
 	get := w.Fn("jrpc2", "(*cache).get")
 	fSegs := w.Field("jrpc2", "cache", "segments")
-	var pStart, pLimit *ssa.Parameter
-	for _, p := range get.Params {
-		switch p.Name() {
-		case "start":
-			pStart = p
-		case "limit":
-			pLimit = p
-		}
-	}
+	pStart, pLimit := rangeParams(get)
 	if pStart == nil || pLimit == nil {
 		fatalf("anchor: (*cache).get(start, limit) parameters not found")
 	}
@@ -2614,17 +2606,7 @@ func memberLeaves(reg *Region, v ssa.Value) ([]ssa.Value, bool) {
 // when the range is handed in as one value (`asked span`) – the parameters of its only caller, together with
 // the call site through which the routine's values are to be read (unfold.go).
 func requestedRange(w *World, fn *ssa.Function) (pStart, pLimit *ssa.Parameter, stack []*ssa.Call) {
-	named := func(f *ssa.Function) (a, b *ssa.Parameter) {
-		for _, p := range f.Params {
-			switch p.Name() {
-			case "start":
-				a = p
-			case "limit":
-				b = p
-			}
-		}
-		return
-	}
+	named := rangeParams
 	pStart, pLimit = named(fn)
 	if pStart != nil && pLimit != nil {
 		return pStart, pLimit, nil
@@ -2643,4 +2625,31 @@ func requestedRange(w *World, fn *ssa.Function) (pStart, pLimit *ssa.Parameter, 
 		fatalf("anchor: the requested range (start, limit) of %s is not identified", fnName(fn))
 	}
 	return
+}
+
+// rangeParams: the (start, limit) parameters of a fetch routine or of validate: by their names, or – when
+// they were renamed – the routine's two uint64 parameters in order (the range is always handed over as
+// first block, number of blocks).
+func rangeParams(f *ssa.Function) (start, limit *ssa.Parameter) {
+	for _, p := range f.Params {
+		switch p.Name() {
+		case "start":
+			start = p
+		case "limit":
+			limit = p
+		}
+	}
+	if start != nil && limit != nil {
+		return
+	}
+	var u64 []*ssa.Parameter
+	for _, p := range f.Params {
+		if b, ok := p.Type().Underlying().(*types.Basic); ok && b.Kind() == types.Uint64 {
+			u64 = append(u64, p)
+		}
+	}
+	if len(u64) == 2 {
+		return u64[0], u64[1]
+	}
+	return start, limit
 }
